@@ -13,7 +13,7 @@ class C08(C06):
     RULE = ("histories on ONE bundle: every request of a GR bundle issued 2-4 times in random order interleaved with the "
             "other requests (so plural rules are cached and earlier calls have produced errors), the same argument set "
             "(in half of the single-thread histories preceded by a sibling-locale bundle and by a run of the same bundle under another configuration that is then changed back: pre=1) inserted in different orders (also by re-setting a key that is already present), and each request repeated on a FRESH bundle (second bundle case on the same "
-            "line). Non-trivial = the history repeats at least one request whose resolution involved a reference, select or "
+            "line). In the pre=1 histories every request is also written to writers that FAIL after 0-12 bytes before the history starts (a failed call must leave nothing behind). Non-trivial = the history repeats at least one request whose resolution involved a reference, select or "
             "error; distinct = distinct case line.")
     EXPLANATION = ("Theorems: format_pattern and write_pattern of the model coincide (text and errors) for every bundle, "
                    "pattern and argument set; the model is a function of (bundle, pattern, arguments) only (no hidden state), "
